@@ -638,3 +638,26 @@ package rsm
 //@ requires len(data) + len(crc) < 4611686018427387904
 //@ modifies gLastChunkData, cw.chunkID
 //@ ensures !(ptr(data) <= gLastChunkData && gLastChunkData < ptr(data) + cap(data))
+
+// ---------------------------------------------------------------- what a snapshot captures (C08)
+// the membership stored in a snapshot's metadata is a private copy: later config changes must
+// not show through into a snapshot whose index precedes them
+//@ func deepCopyMembership [C08]
+//@ trusted copies the four member maps into freshly allocated maps (four three-line loops)
+//@ ensures fresh(result.Addresses) && fresh(result.NonVotings) && fresh(result.Witnesses) && fresh(result.Removed) && result.ConfigChangeId == m.ConfigChangeId
+//@ func (m *membership) get [C08 C07]
+//@ ensures fresh(result.Addresses) && fresh(result.NonVotings) && fresh(result.Witnesses) && fresh(result.Removed) && result.ConfigChangeId == m.members.ConfigChangeId
+
+// an exported snapshot always carries the full state machine data (it is what a repaired shard
+// is rebuilt from); only witnesses and ordinary on-disk snapshots are dummies
+//@ func (ds *NativeSM) saveDummy [C08]
+//@ trusted writes the session image only
+//@ func (ds *NativeSM) save [C08]
+//@ trusted writes the session image followed by the user state machine's snapshot
+//@ iface (s IStateMachine) OnDisk
+//@ func (ds *NativeSM) Save [C08]
+//@ noframe
+//@ nobounds
+//@ requires ds.sm != nil
+//@ ensures result1 == nil && meta.Request.Type == Exported && !ds.config.IsWitness ==> !result0
+//@ ensures result1 == nil && ds.config.IsWitness ==> result0
